@@ -39,6 +39,31 @@ def calls_in(node, suffix):
 
 # ------------------------------------------------------------------ REBUILD
 
+def _top_seq(body):
+    blk = hir.strip(body["body"])
+    if blk.get("k") != "BlockExpr":
+        return None
+    blk = blk["b"]
+    return list(blk["stmts"]) + ([blk["expr"]] if blk.get("expr") else []), blk
+
+
+def _deep_calls(prog, node, suffix):
+    return [n for n in hir.nodes_deep(prog, node) if n.get("k") in ("Call", "MethodCall") and (hir.callee(n) or "").endswith(suffix)]
+
+
+def _containing_fn(prog, root_body, target):
+    """the body (root or a local helper reachable from it) that directly contains node `target`"""
+    if any(x is target for x in hir.nodes(root_body["body"])):
+        return root_body
+    for n in hir.nodes(root_body["body"]):
+        if n.get("k") in ("Call", "MethodCall"):
+            hb = hir.local_callee_body(prog, n)
+            if hb is not None and hb["p"] != root_body["p"]:
+                if any(x is target for x in hir.nodes(hb["body"])):
+                    return hb
+    return None
+
+
 def rule_rebuild(prog):
     out = Out("REBUILD")
     c = prog.front
@@ -50,62 +75,103 @@ def rule_rebuild(prog):
             continue
         b = bs[0]
         item = "AnalyzedSource::" + fname
-        blk = hir.strip(b["body"])
-        blk = blk["b"] if blk.get("k") == "BlockExpr" else None
-        if blk is None:
+        ts = _top_seq(b)
+        if ts is None:
             out.missing(item + " body block")
             continue
-        seq = list(blk["stmts"]) + ([blk["expr"]] if blk.get("expr") else [])
+        seq, blk = ts
+        loc = c.loc(b["sp"])
         bi = ai = None
         last_syntax = -1
         build_call = analyze_call = None
         for i, s in enumerate(seq):
-            if calls_in(s, "table::build::build"):
-                if bi is None:
-                    bi, build_call = i, calls_in(s, "table::build::build")[0]
-            if calls_in(s, "table::semantic::analyze"):
-                if ai is None:
-                    ai, analyze_call = i, calls_in(s, "table::semantic::analyze")[0]
+            bc = _deep_calls(prog, s, "table::build::build")
+            ac = _deep_calls(prog, s, "table::semantic::analyze")
+            if bc and bi is None:
+                bi, build_call = i, bc[0]
+            if ac and ai is None:
+                ai, analyze_call = i, ac[0]
             for suf in ("lexer::update", "lexer::lex", "parser::update", "parser::parse"):
-                if calls_in(s, suf):
+                if _deep_calls(prog, s, suf):
                     last_syntax = max(last_syntax, i)
-        loc = c.loc(b["sp"])
         out.add(item, "symbol table is rebuilt (table::build called)", bi is not None, loc,
                 "the returned source must carry a table built from its final AST")
         out.add(item, "semantic analysis is re-run (table::analyze called)", ai is not None, loc,
                 "semantic diagnostics must be recomputed for the final AST")
         if bi is None or ai is None:
             continue
-        out.add(item, "build precedes analyze", bi < ai, c.loc(analyze_call["sp"]), "analyze must see the rebuilt table")
-        out.add(item, "build/analyze run after the last lexer/parser step", last_syntax < bi and last_syntax >= 0,
+        out.add(item, "build/analyze run after the last lexer/parser step", last_syntax < bi and last_syntax < ai and last_syntax >= 0,
                 c.loc(build_call["sp"]), "the table must be built from the AST produced by the last change")
-        # same AST place, and analyze reads the table that build produced
+        g_b = _containing_fn(prog, b, build_call)
+        g_a = _containing_fn(prog, b, analyze_call)
+        if g_b is None or g_a is None or g_b is not g_a:
+            out.add(item, "build precedes analyze", (bi < ai) if bi != ai else None, c.loc(analyze_call["sp"]), "analyze must see the rebuilt table")
+            continue
+        g = g_b
+        gseq, gblk = _top_seq(g) or ([], None)
+        gbi = gai = None
+        for i, s in enumerate(gseq):
+            if any(x is build_call for x in hir.nodes(s)) and gbi is None:
+                gbi = i
+            if any(x is analyze_call for x in hir.nodes(s)) and gai is None:
+                gai = i
+        out.add(item, "build precedes analyze", gbi is not None and gai is not None and gbi < gai, c.loc(analyze_call["sp"]),
+                "analyze must see the rebuilt table")
         ast_b = place(build_call["args"][0])
         ast_a = place(analyze_call["args"][0])
         out.add(item, "build and analyze work on the same AST", ast_b is not None and ast_b == ast_a,
                 c.loc(analyze_call["sp"]), "build on %s, analyze on %s" % (ast_b, ast_a))
-        # where does the build result go?
-        s = seq[bi]
         dest = None
-        if s.get("k") == "Let" and s["pat"].get("k") == "Binding":
-            dest = "%s#%s" % (s["pat"]["name"], s["pat"]["id"])
-        else:
-            e = stmt_expr(s)
-            if e and e.get("k") == "Assign":
-                dest = place(e["l"])
+        if gbi is not None:
+            s = gseq[gbi]
+            if s.get("k") == "Let" and s["pat"].get("k") == "Binding":
+                dest = "%s#%s" % (s["pat"]["name"], s["pat"]["id"])
+            else:
+                e = stmt_expr(s)
+                if e and e.get("k") == "Assign":
+                    dest = place(e["l"])
         tbl_a = place(analyze_call["args"][1])
         out.add(item, "analyze reads the freshly built table", dest is not None and dest == tbl_a,
                 c.loc(analyze_call["sp"]), "build result stored in %s, analyze reads %s" % (dest, tbl_a))
         # the value returned carries that AST and table
-        ret = hir.strip(seq[-1]) if blk.get("expr") else None
         ok = None
-        if ret is not None:
-            if ret.get("k") == "Path":
-                rp = place(ret)
-                ok = (ast_b or "").startswith(rp + ".") and (dest or "").startswith(rp + ".")
-            elif ret.get("k") == "Struct":
-                f = {x["name"]: place(x["e"]) for x in ret["fields"]}
-                ok = f.get("ast") == ast_b and f.get("table") == dest
+        if g is b:
+            ret = hir.strip(seq[-1]) if blk.get("expr") else None
+            if ret is not None:
+                if ret.get("k") == "Path":
+                    rp = place(ret)
+                    ok = (ast_b or "").startswith(rp + ".") and (dest or "").startswith(rp + ".")
+                elif ret.get("k") == "Struct":
+                    f = {x["name"]: place(x["e"]) for x in ret["fields"]}
+                    ok = f.get("ast") == ast_b and f.get("table") == dest
+        else:
+            # helper returns the table it built; the caller stores it next to the AST it passed in
+            gret = hir.strip(gseq[-1]) if gblk is not None and gblk.get("expr") else None
+            helper_returns_table = gret is not None and place(gret) == dest
+            hcall = None
+            for n in hir.nodes(seq[bi]):
+                if n.get("k") in ("Call", "MethodCall") and hir.local_callee_body(prog, n) is g:
+                    hcall = n
+            ok_store = None
+            if hcall is not None and helper_returns_table:
+                arg_ast = place(hcall["args"][0]) if hcall.get("args") else None
+                st = seq[bi]
+                tdest = None
+                if st.get("k") == "Let" and st["pat"].get("k") == "Binding":
+                    tdest = "%s#%s" % (st["pat"]["name"], st["pat"]["id"])
+                else:
+                    e = stmt_expr(st)
+                    if e and e.get("k") == "Assign":
+                        tdest = place(e["l"])
+                ret = hir.strip(seq[-1]) if blk.get("expr") else None
+                if ret is not None and tdest and arg_ast:
+                    if ret.get("k") == "Path":
+                        rp = place(ret)
+                        ok_store = arg_ast.startswith(rp + ".") and tdest.startswith(rp + ".")
+                    elif ret.get("k") == "Struct":
+                        f = {x["name"]: place(x["e"]) for x in ret["fields"]}
+                        ok_store = f.get("ast") == arg_ast and f.get("table") == tdest
+            ok = ok_store
         out.add(item, "returned value carries the rebuilt table and analysed AST", ok, loc, "")
     return out
 
@@ -185,6 +251,14 @@ def _is_ts(c, e):
     return hir.adt_path(c, e["t"]) == TS
 
 
+def _ts_field(c, e):
+    """(field name, place of base) if e is `<TokenStream>.reference_pos|error_buffer`."""
+    e = hir.strip_ref(e)
+    if e.get("k") == "Field" and e["name"] in ("reference_pos", "error_buffer") and _is_ts(c, e["base"]):
+        return e["name"]
+    return None
+
+
 def rule_save_restore(prog):
     out = Out("SAVE-RESTORE")
     c = prog.front
@@ -193,25 +267,42 @@ def rule_save_restore(prog):
         f = c.file_of(b["sp"])
         if not (f.endswith("parser.rs") or f.endswith("parser/utility.rs")):
             continue
-        # saved fields: let B = <ts>.F
+        # saved fields: `let B = ts.F` | `let B = mem::take(&mut ts.F)` | `let B = mem::replace(&mut ts.F, ..)`
         saves = {}
+        overwritten = set()
         for n in hir.nodes(b["body"], "Let"):
             init = n.get("init")
-            if init and hir.strip(init).get("k") == "Field" and n["pat"].get("k") == "Binding":
-                fe = hir.strip(init)
-                if _is_ts(c, fe["base"]) and fe["name"] in ("reference_pos", "error_buffer") \
-                        and fe["name"] not in saves:
-                    saves[fe["name"]] = "%s#%s" % (n["pat"]["name"], n["pat"]["id"])
+            if not init or n["pat"].get("k") != "Binding":
+                continue
+            ie = hir.strip(init)
+            fld = _ts_field(c, ie)
+            if fld is None and ie.get("k") == "Call" and last(hir.callee(ie) or "") in ("take", "replace") and "mem" in (hir.callee(ie) or ""):
+                fld = _ts_field(c, ie["args"][0])
+                if fld:
+                    overwritten.add(fld)
+            if fld and fld not in saves:
+                saves[fld] = "%s#%s" % (n["pat"]["name"], n["pat"]["id"])
         if not saves:
             continue
+
+        def writes(node, field, backup):
+            """does `node` contain a write of `backup` into <ts>.field?"""
+            for a in hir.nodes(node, "Assign"):
+                if _ts_field(c, a["l"]) == field and place(a["r"]) == backup:
+                    return True
+            for call in hir.nodes(node, "Call"):
+                cn = hir.callee(call) or ""
+                if "mem" in cn and last(cn) in ("replace", "swap") and len(call["args"]) == 2 and \
+                        _ts_field(c, call["args"][0]) == field and place(call["args"][1]) == backup:
+                    return True
+            return False
+
         for field, backup in sorted(saves.items()):
-            over = [n for n in hir.nodes(b["body"], "Assign")
-                    if hir.strip(n["l"]).get("k") == "Field" and hir.strip(n["l"])["name"] == field
-                    and _is_ts(c, hir.strip(n["l"])["base"]) and place(n["r"]) != backup]
+            over = field in overwritten or any(
+                _ts_field(c, n["l"]) == field and place(n["r"]) != backup for n in hir.nodes(b["body"], "Assign"))
             if not over:
                 continue
             n_funcs += 1
-            # arms of matches on a parse result that hand a TokenStream out
             for m in hir.nodes(b["body"], "Match"):
                 if m["src"] != "match":
                     continue
@@ -219,12 +310,9 @@ def rule_save_restore(prog):
                     pv = hir.pat_variant(arm["pat"])
                     if pv is None or last(pv) not in ("Ok", "Err"):
                         continue
-                    binds = list(hir.pat_bindings(arm["pat"]))
-                    if not binds:
+                    if not list(hir.pat_bindings(arm["pat"])):
                         continue  # `Err(_) => panic!`
-                    restored = any(hir.strip(a["l"]).get("k") == "Field" and hir.strip(a["l"])["name"] == field
-                                   and place(a["r"]) == backup for a in hir.nodes(arm["body"], "Assign"))
-                    out.add(b["d"], "%s restored on the %s exit" % (field, last(pv)), restored, c.loc(arm["sp"]),
+                    out.add(b["d"], "%s restored on the %s exit" % (field, last(pv)), writes(arm["body"], field, backup), c.loc(arm["sp"]),
                             "`%s` is saved into `%s` and overwritten; this exit hands the TokenStream on without "
                             "writing the saved value back" % (field, backup.split("#")[0]))
     if n_funcs == 0:
@@ -421,17 +509,19 @@ def rule_recovery_noconsume(prog):
                 n += 1
                 out.add("parser::utility::expect", "error arm resumes at the failing parser's input", good and not takes,
                         c.loc(arm["sp"]), "`Ok((err.input, None))` without consuming anything is expected", ("expect",))
-    if n < 2:
-        out.missing("two error arms in parser::utility::expect")
+    if n < 1:
+        out.missing("error arm(s) in parser::utility::expect")
     # who may take tokens from a TokenStream
     allowed = ("tag_parser!",)
     for b in c.bodies:
         f = c.file_of(b["sp"])
         if not (f.endswith("parser.rs") or f.endswith("parser/utility.rs")):
             continue
+        def _taker(x):
+            return ("tag_parser!" in (x.get("mx") or [])) or x["p"] == "spl_frontend::parser::comment" or \
+                x["p"].startswith("spl_frontend::parser::utility::ignore_until")
         for n_ in calls_in(b["body"], "nom::bytes::complete::take"):
-            ok = ("tag_parser!" in (b.get("mx") or [])) or b["name"] in ("comment",) or \
-                 b["p"].startswith("spl_frontend::parser::utility::ignore_until")
+            ok = _taker(b) or hir.only_called_from(prog, b["p"], _taker)
             out.add(b["d"], "takes tokens only in tag_parser!/comment/ignore_until", ok, c.loc(n_["sp"]),
                     "a raw `take` outside the token parsers bypasses comment skipping", ("take",))
     # declaration keywords are consumed only by the declaration parsers and look_ahead::global_dec
@@ -628,42 +718,65 @@ def _collect_field_pats(p, seen):
 # ------------------------------------------------------------------ EMPTY-RANGE-GUARD
 
 def rule_empty_range_guard(prog):
-    """tokens[range].first()/last().expect(..) must live in the arm complementary to range.is_empty()."""
+    """tokens[range].first()/last().expect(..) must only be reached when `range` is known to be non-empty: in a match arm
+    behind the `is_empty()` arm, in the else branch of / after an early return on `is_empty()`."""
     out = Out("EMPTY-RANGE-GUARD")
     c = prog.front
-    targets = []
-    for b in c.bodies:
-        if b["d"] in ("<AnalyzedSource as ErrorContainer>::errors", "<ast::AstInfo as ToTextRange>::to_text_range"):
-            targets.append(b)
+    targets = [b for b in c.bodies if b["d"] in ("<AnalyzedSource as ErrorContainer>::errors", "<ast::AstInfo as ToTextRange>::to_text_range")]
     if len(targets) != 2:
         out.missing("AnalyzedSource::errors / AstInfo::to_text_range")
         return out
+
+    def mentions_is_empty(e):
+        return e is not None and any(n["m"] == "is_empty" for n in hir.nodes(e, "MethodCall"))
+
+    def diverges(blk):
+        return any(True for _ in hir.nodes(blk, "Ret")) or any(True for _ in hir.nodes(blk, "Break")) or any(True for _ in hir.nodes(blk, "Continue"))
+
     for b in targets:
-        ms = [m for m in hir.nodes(b["body"], "Match") if m["src"] == "match"]
-        found = False
-        for m in ms:
-            guarded_empty = False
-            for i, arm in enumerate(m["arms"]):
-                g = arm.get("guard")
-                is_empty_guard = bool(g) and any(n["m"] == "is_empty" for n in hir.nodes(g, "MethodCall"))
-                exps = [n for n in hir.nodes(arm["body"], "MethodCall") if n["m"] == "expect"
-                        and hir.strip(n["recv"]).get("k") == "MethodCall" and hir.strip(n["recv"])["m"] in ("first", "last")]
-                if is_empty_guard:
-                    guarded_empty = True
-                    if exps:
-                        out.add(b["d"], "first()/last().expect() not in the empty-range arm", False, c.loc(exps[0]["sp"]),
-                                "an empty token range has no first/last token")
-                        found = True
-                elif exps:
-                    found = True
-                    out.add(b["d"], "first()/last().expect() only after the empty-range arm", guarded_empty,
-                            c.loc(exps[0]["sp"]),
-                            "slicing tokens with an empty range and then unwrapping first()/last() panics; the "
-                            "`range.is_empty()` arm must come first")
-        if not found:
-            # no expect at all is fine (e.g. rewritten with if-let); count as holding
-            exps = [n for n in hir.nodes(b["body"], "MethodCall") if n["m"] in ("expect", "unwrap")]
-            out.add(b["d"], "no unguarded first()/last().expect()", not exps, c.loc(b["sp"]), "")
+        roots = [b["body"]]
+        # helpers extracted from these functions count too
+        for call in hir.nodes(b["body"]):
+            if call.get("k") in ("Call", "MethodCall"):
+                hb = hir.local_callee_body(prog, call)
+                if hb is not None and c.file_of(hb["sp"]) == c.file_of(b["sp"]) and hb["p"] != b["p"] and hb.get("impl_trait") is None:
+                    roots.append(hb["body"])
+        found = 0
+        for root in roots:
+            for n, parents in hir.walk(root):
+                if not (n.get("k") == "MethodCall" and n["m"] in ("expect", "unwrap") and hir.strip(n["recv"]).get("k") == "MethodCall"
+                        and hir.strip(n["recv"])["m"] in ("first", "last")):
+                    continue
+                found += 1
+                guarded = False
+                chain = list(parents) + [n]
+                for i, p in enumerate(chain[:-1]):
+                    nxt = chain[i + 1]
+                    if p.get("k") == "Match":
+                        # an earlier arm guards on is_empty, we are in a later arm
+                        arms = p["arms"]
+                        idx = [k for k, a in enumerate(arms) if a is nxt]
+                        if idx and any(mentions_is_empty(a.get("guard")) for a in arms[:idx[0]]):
+                            guarded = True
+                    if p.get("k") == "If" and mentions_is_empty(p["cond"]):
+                        cond = hir.strip(p["cond"])
+                        negated = cond.get("k") == "Unary" and cond["op"] == "!"
+                        in_then = nxt is p["then"] or any(x is nxt for x in hir.nodes(p["then"]))
+                        if (in_then and negated) or (not in_then and not negated):
+                            guarded = True
+                    if p.get("k") == "Block":
+                        for st in p["stmts"]:
+                            if st is nxt or any(x is nxt for x in hir.nodes(st)):
+                                break
+                            for iff in hir.nodes(st, "If"):
+                                cond = hir.strip(iff["cond"])
+                                if mentions_is_empty(cond) and not (cond.get("k") == "Unary" and cond["op"] == "!") and diverges(iff["then"]):
+                                    guarded = True
+                out.add(b["d"], "first()/last().expect() is reached only for a non-empty range", guarded, c.loc(n["sp"]),
+                        "slicing tokens with an empty range and then unwrapping first()/last() panics; the empty case must be "
+                        "handled first")
+        if found == 0:
+            out.add(b["d"], "no unguarded first()/last().expect()", True, c.loc(b["sp"]), "")
     return out
 
 
